@@ -781,11 +781,18 @@ func ruleAelJoinSplice(rule string) func(*Ctx) {
 			if p.end != "return" {
 				continue
 			}
+			var splices []string // the edge after which ae is linked in
 			for _, s := range p.stores {
-				if !strings.HasSuffix(s.addr, ".nextInAEL") || s.val.expr != "ae" {
-					continue
+				if strings.HasSuffix(s.addr, ".nextInAEL") && s.val.expr == "ae" {
+					splices = append(splices, strings.TrimSuffix(s.addr, ".nextInAEL"))
 				}
-				P := strings.TrimSuffix(s.addr, ".nextInAEL")
+			}
+			for _, cl := range p.calls { // the hand-written linking replaced by the existing insert-after helper
+				if cl.callee == "insertRightEdge" && len(cl.args) == 2 && cl.args[1].expr == "ae" {
+					splices = append(splices, cl.args[0].expr)
+				}
+			}
+			for _, P := range splices {
 				n++
 				ok := false
 				for _, cd := range p.conds {
@@ -801,7 +808,10 @@ func ruleAelJoinSplice(rule string) func(*Ctx) {
 				}
 			}
 		}
-		c.check(bad == "" && n >= 4, rule, rule+":(clipperBase).insertLeftEdge:splice-point", f.Pos(), "(clipperBase).insertLeftEdge",
+		if n < 2 && bad == "" {
+			bad = fmt.Sprintf("only %d explored paths link the new edge in after a resident edge", n)
+		}
+		c.check(bad == "" && n >= 2, rule, rule+":(clipperBase).insertLeftEdge:splice-point", f.Pos(), "(clipperBase).insertLeftEdge",
 			fmt.Sprintf("on %d explored splices the position was tested against JoinRight (or is the partner hopped to)", n), bad,
 			"an edge inserted between the two halves of a joined pair becomes the partner that split() separates: its output record is overwritten and a polygon of the union is lost or doubled — only inputs with touching collinear horizontal-adjacent edges and a local minimum between them show it")
 	}
